@@ -3,7 +3,8 @@ From Coq Require Import NArith List Bool String.
 From BM Require Import Base.Outcome Base.Prims Base.Own Base.Layout Model.Alloc Proofs.AllocProofs.
 Import ListNotations.
 Open Scope N_scope.
-From BM Require Import Model.RcHist Proofs.AllocGen.
+From BM Require Import Model.RcHist Proofs.AllocGen Proofs.AllocGenBytes.
+From BM.Gen Require Alloc.
 
 Theorem C10_iff : forall k A B c, wf_cont k A c -> ((exists c', try_cast_cont k A B c = Ok c') <-> cast_ok k A B c).
 Proof. exact cast_iff. Qed.
@@ -28,6 +29,31 @@ Theorem C10_generated_iff : forall k ENV A B c, wf_cont k A c -> gen_pre k A c -
   ((exists c', gen_try k ENV A B c = Ret (Ok c')) <-> cast_ok k A B c).
 Proof. exact gen_try_iff. Qed.
 
+(* BoxBytes back to a Box (the owning cast whose source "element" is the recorded layout): succeeds iff the
+   recorded alignment equals the target's and the size matches (exactly / as whole elements), at the same
+   address, and otherwise names a condition that really failed and hands the BoxBytes back — for the
+   translated try_from_box_bytes, sized and slice targets *)
+Theorem C10_box_bytes_generated : forall ENV T u b,
+  Gen.Alloc.try_from_box_bytes ENV T u b = Ret (if u then try_from_box_bytes_slice T b else try_from_box_bytes_sized T b).
+Proof. intros ENV T u b. exact (proj2 (gen_box_bytes_public ENV T u (mkCont 0 0 0) b)). Qed.
+
+Theorem C10_box_bytes_sized : forall T b, match try_from_box_bytes_sized T b with
+  | Ok c => bb_sized_ok T b /\ cptr c = bb_ptr b /\ drop_layout KBox T c = bb_drop b
+  | Err (e, b0) => ~ bb_sized_ok T b /\ b0 = b /\
+                   match e with AlignmentMismatch => l_align (bb_layout b) <> al T
+                              | SizeMismatch => l_size (bb_layout b) <> sz T | _ => False end
+  end.
+Proof. exact from_bb_sized_char. Qed.
+
+Theorem C10_box_bytes_slice : forall T b, match try_from_box_bytes_slice T b with
+  | Ok c => bb_slice_ok T b /\ cptr c = bb_ptr b /\ clen c * sz T = l_size (bb_layout b) /\
+            drop_layout KBoxSlice T c = bb_drop b
+  | Err (e, b0) => ~ bb_slice_ok T b /\ b0 = b /\
+                   match e with AlignmentMismatch => l_align (bb_layout b) <> al T
+                              | OutputSliceWouldHaveSlop => ~ convertible (l_size (bb_layout b)) (sz T) | _ => False end
+  end.
+Proof. exact from_bb_slice_char. Qed.
+
 Example C10_gen_pre_nonvacuous : gen_pre KVec (mkTy 4 4) (mkCont 4096 3 6) /\ gen_pre KVec (mkTy 0 1) (mkCont 1 5 18446744073709551615).
 Proof. split; vm_compute; reflexivity. Qed.
 
@@ -41,3 +67,6 @@ Print Assumptions C10_err_true.
 Print Assumptions C10_counts_untouched.
 Print Assumptions C10_generated_is_model.
 Print Assumptions C10_generated_iff.
+Print Assumptions C10_box_bytes_generated.
+Print Assumptions C10_box_bytes_sized.
+Print Assumptions C10_box_bytes_slice.
